@@ -183,6 +183,8 @@ type cpEngine struct {
 	// the order decided, each with the number of calls recorded before it) and, for byte buffers of unknown
 	// length, where their length came from (bufInfo)
 	trackAtoms bool
+	// forkLookups: a lookup in a small known table under an unknown string key forks over the entries
+	forkLookups bool
 	// foldAll: module functions are folded whatever is known about their arguments
 	foldAll bool
 	// havocSlices: a call the fold does not follow may also have written the elements of a slice handed to it
@@ -334,6 +336,13 @@ func (e *cpEngine) freshDeps(hint string, deps string) cpUnk {
 // more for a particular question raises it around its call).
 var cpMaxOutcomes = 96
 
+// cpFoldAll: folds started through cpFoldOpt follow every module function, whatever is known about its
+// arguments (set around a fold whose outcomes are to be compared with each other).
+var cpFoldAll = false
+
+// cpMaxDepth: how deep cpFoldOpt follows calls (a call beyond it is recorded, not folded)
+var cpMaxDepth = 8
+
 // cpTolerant: a path that meets something the fold cannot model ends as a "failed" outcome instead of failing
 // the whole fold (budgets still fail it). For questions about one particular kind of outcome.
 var cpTolerant = false
@@ -385,7 +394,7 @@ func cpFold(P *Program, fn *ssa.Function, args []cpVal) (outs []cpOutcome, ok bo
 // are recorded like calls that leave the module); it also reports the
 // functions folded through.
 func cpFoldOpt(P *Program, fn *ssa.Function, args []cpVal, opaque func(*ssa.Function) bool) (outs []cpOutcome, visited map[*ssa.Function]bool, ok bool, why string) {
-	e := &cpEngine{P: P, MaxOut: cpMaxOutcomes, MaxSteps: 40000, MaxForks: cpMaxForks, MaxDepth: 8, opaque: opaque, visited: map[*ssa.Function]bool{}}
+	e := &cpEngine{P: P, MaxOut: cpMaxOutcomes, MaxSteps: 40000, MaxForks: cpMaxForks, MaxDepth: cpMaxDepth, opaque: opaque, visited: map[*ssa.Function]bool{}, foldAll: cpFoldAll}
 	e.globals = cpInitGlobals(P)
 	defer func() { visited = e.visited }()
 	e.pending = [][]bool{nil}
@@ -866,11 +875,21 @@ func (e *cpEngine) havoc(v cpVal, d int) {
 	case cpPtr:
 		if x.C != nil {
 			if s, ok := x.C.V.(cpStruct); ok {
-				for i, c := range s.F {
+				// every field, the ones not yet looked at included (a struct's cells are made on first use)
+				n := 0
+				if st, isS := s.T.Underlying().(*types.Struct); isS {
+					n = st.NumFields()
+				}
+				for i := 0; i < n; i++ {
 					if e.keepField != nil && e.keepField(s.T, i) {
 						continue
 					}
-					c.V = e.fresh("havoc")
+					e.field(s, i).V = e.fresh("havoc")
+				}
+				for i, c := range s.F {
+					if i >= n && !(e.keepField != nil && e.keepField(s.T, i)) {
+						c.V = e.fresh("havoc")
+					}
 				}
 			} else {
 				x.C.V = e.fresh("havoc")
@@ -1551,6 +1570,13 @@ func (e *cpEngine) evalCall(fr *cpFrame, x *ssa.Call, depth int) cpVal {
 		if r, ok := e.builtin(fr, bi.Name(), args, x.Type()); ok {
 			return r
 		}
+		if (bi.Name() == "Sizeof" || bi.Name() == "Alignof") && len(cc.Args) == 1 && !hasTypeParam(cc.Args[0].Type()) {
+			// unsafe.Sizeof(T(0)) in an instance of a generic function: a constant of the instance
+			if bi.Name() == "Sizeof" {
+				return cpInt{e.P.Sizes.Sizeof(cc.Args[0].Type())}
+			}
+			return cpInt{e.P.Sizes.Alignof(cc.Args[0].Type())}
+		}
 		return e.resultOf(fr, x, "builtin")
 	}
 	if cc.IsInvoke() {
@@ -1674,9 +1700,13 @@ func (e *cpEngine) evalCall(fr *cpFrame, x *ssa.Call, depth int) cpVal {
 			}
 		}
 	}
-	if g != nil && e.P.isModuleFunc(g) && g.Blocks != nil && depth < e.MaxDepth && (e.opaque == nil || !e.opaque(g)) {
+	// a method expression or method value of a type outside the module (time.Time.UnixMicro as a function
+	// value): go/ssa gives it a synthetic body that just makes the call, which is folded so that the call
+	// is recorded under the method's own name
+	thunk := g != nil && g.Blocks != nil && (strings.HasPrefix(g.Synthetic, "thunk") || strings.HasPrefix(g.Synthetic, "bound method wrapper")) && len(g.Blocks) == 1
+	if g != nil && (e.P.isModuleFunc(g) || thunk) && g.Blocks != nil && depth < e.MaxDepth && (e.opaque == nil || !e.opaque(g)) {
 		args := make([]cpVal, len(cc.Args))
-		known := false
+		known := thunk
 		for i, a := range cc.Args {
 			args[i] = e.get(fr, a)
 			if cpKnown(args[i]) {
